@@ -147,6 +147,22 @@ def run(ck):
             if ev["res"] == "value":
                 ck.nontrivial((term_io.term_key(ev["f"]), tuple(term_io.term_key(a[2]) for a in asg)))
             evs.append(ev)
+    # equalities of array literals over finite index sorts (the defaults matter while an index is unassigned)
+    n_arreq = 0
+    for j in gen_corpus("ARREQ"):
+        try:
+            f = term_io.build_public(j, env)
+        except Exception:
+            continue
+        ev = one_event(ck, eid, env, f, term_io.export(f), [], [], True, True)
+        eid += 1
+        if ev is not None:
+            ck.count()
+            n_arreq += 1
+            if ev["res"] == "value":
+                ck.nontrivial((term_io.term_key(ev["f"]), ()))
+            evs.append(ev)
+    ck.part("array_literal_equalities", events=n_arreq)
     from harness import bigvals
     big = bigvals.events(ck, (max(e["id"] for e in evs) + 1) if evs else 0, quick)
     evs += big
